@@ -40,19 +40,17 @@ theorem readGo_start_spec (m : RdMethod) (h : m.n = 8 ∨ m.Valid) (pending : Li
 theorem stepC_abs (op : COp) (hok : op.OK) (vals : List Nat) (w : CW) :
     (stepC op vals w).1 = (stepO op vals w.abs).1 ∧ (stepC op vals w).2.1.abs = (stepO op vals w.abs).2 := by
   unfold stepC stepO
-  have hda : w.abs.dead = w.dead := rfl
-  rw [hda]
-  by_cases hd : w.dead = true
+  have hma : w.abs.mem = w.mem := rfl
+  have hrest : w.abs.rest = w.src.pending ++ w.src.future.flatten := rfl
+  rw [hma]
+  by_cases hd : w.mem.dead = true
   · simp only [hd, ↓reduceIte, and_self]
   · simp only [hd, Bool.false_eq_true, ↓reduceIte]
-    have hdf : w.dead = false := by simpa using hd
     cases op with
-    | pure f =>
-      have hobs : w.abs.obs = w.obs := rfl
-      simp [CW.abs]
+    | pure f => simp [CW.abs]
+    | store i g => simp [CW.abs]
     | rd m =>
       have hspec := readGo_start_spec m hok w.src.pending w.src.future w.src.consumed w.src.susp
-      have hrest : w.abs.rest = w.src.pending ++ w.src.future.flatten := rfl
       by_cases hc : m.n / 8 ≤ (w.src.pending ++ w.src.future.flatten).length
       · obtain ⟨src, h1, h2, h3⟩ := hspec.1 hc
         simp only [h1, hrest, hc, ↓reduceIte, true_and]
@@ -61,11 +59,8 @@ theorem stepC_abs (op : COp) (hok : op.OK) (vals : List Nat) (w : CW) :
         simp only [h1, hrest, hc, ↓reduceIte, true_and]
         simp [CW.abs]
     | skip f =>
-      have hspec := skipGo_spec w.src.future (f w.obs vals) w.src.pending w.src.consumed w.src.susp
-      have hrest : w.abs.rest = w.src.pending ++ w.src.future.flatten := rfl
-      have hobs : w.abs.obs = w.obs := rfl
-      rw [hobs]
-      by_cases hc : f w.obs vals ≤ (w.src.pending ++ w.src.future.flatten).length
+      have hspec := skipGo_spec w.src.future (f w.mem.fields vals) w.src.pending w.src.consumed w.src.susp
+      by_cases hc : f w.mem.fields vals ≤ (w.src.pending ++ w.src.future.flatten).length
       · obtain ⟨src, h1, h2, h3⟩ := hspec.1 hc
         simp only [h1, hrest, hc, ↓reduceIte, true_and]
         simp only [CW.abs, h2, h3]
@@ -74,7 +69,6 @@ theorem stepC_abs (op : COp) (hok : op.OK) (vals : List Nat) (w : CW) :
         simp [CW.abs]
     | skip1 =>
       have hspec := skip1Go_spec w.src.future w.src.pending w.src.consumed w.src.susp
-      have hrest : w.abs.rest = w.src.pending ++ w.src.future.flatten := rfl
       by_cases hc : 1 ≤ (w.src.pending ++ w.src.future.flatten).length
       · obtain ⟨src, h1, h2, h3⟩ := hspec.1 hc
         simp only [h1, hrest, hc, ↓reduceIte, true_and]
@@ -83,10 +77,22 @@ theorem stepC_abs (op : COp) (hok : op.OK) (vals : List Nat) (w : CW) :
         simp only [h1, hrest, hc, ↓reduceIte, true_and]
         simp [CW.abs]
     | wr f =>
-      have hobs : w.abs.obs = w.obs := rfl
-      rw [hobs]
       simp only [true_and]
       simp only [CW.abs, writeGo_out]
+    | yieldSR =>
+      simp only [true_and, hrest]
+      by_cases he : (w.src.pending ++ w.src.future.flatten).isEmpty = true
+      · simp [he, CW.abs]
+      · simp only [he, Bool.false_eq_true, ↓reduceIte]
+        cases hf : w.src.future with
+        | cons ch fut => simp [CW.abs, hf]
+        | nil => simp [CW.abs, hf]
+    | yieldSW =>
+      simp only [true_and]
+      by_cases hr : (w.dst.room == 0) = true
+      · simp only [hr, ↓reduceIte]
+        cases w.dst.future <;> simp [CW.abs]
+      · simp [hr, CW.abs]
     | ext x => exact hok vals w
 
 theorem opAt_OK (interp : Nat → COp) (hok : ∀ t, (interp t).OK) (e : Ex) : (opAt interp e).OK := by
@@ -94,6 +100,9 @@ theorem opAt_OK (interp : Nat → COp) (hok : ∀ t, (interp t).OK) (e : Ex) : (
   have h := hok e.tag
   cases ht : interp e.tag with
   | pure f => trivial
+  | store i g => trivial
+  | yieldSR => trivial
+  | yieldSW => trivial
   | rd m => simp only; split <;> simp_all [COp.OK]
   | skip f => simp only; split <;> trivial
   | skip1 => simp only; split <;> trivial
@@ -101,7 +110,7 @@ theorem opAt_OK (interp : Nat → COp) (hok : ∀ t, (interp t).OK) (e : Ex) : (
   | ext x => simp only; split <;> simp_all [COp.OK]
 
 /-- The chunked and the one-shot interpretation are the same interpretation up to `CW.abs`. -/
-theorem chunk_one_sim (interp : Nat → COp) (hok : ∀ t, (interp t).OK) (comb : Nat → Nat → Nat) :
+theorem chunk_one_sim (interp : Nat → COp) (hok : ∀ t, (interp t).OK) (comb : Nat → Nat → Nat → Nat) :
     CfgSim CW.abs (chunkCfg interp comb) (oneCfg interp comb) where
   val e w vals := (stepC_abs (opAt interp e) (opAt_OK interp hok e) vals w).1
   next e w vals := (stepC_abs (opAt interp e) (opAt_OK interp hok e) vals w).2
